@@ -114,11 +114,15 @@ func checkCtlDrain(c cdCase) *verdict {
 	var runningAtDrain []*cdProc
 	go func() {
 		at(c.DrainAtUs)
-		st.mu.Lock()
-		for _, p := range st.started {
-			runningAtDrain = append(runningAtDrain, p)
+		// "running" = registered with the controller (a processor whose Start has returned a moment ago but which the event
+		// loop has not registered yet is not: the controller starts before it registers, see DESIGN 8.4)
+		for _, p := range ctl.GetAllProcs() {
+			st.mu.Lock()
+			if cp := st.started[p.Name()]; cp != nil {
+				runningAtDrain = append(runningAtDrain, cp)
+			}
+			st.mu.Unlock()
 		}
-		st.mu.Unlock()
 		ctl.DrainListeners()
 		drainDone <- time.Now()
 	}()
